@@ -115,8 +115,9 @@ def origin(annotation: tp.Any) -> tp.Any:
         a = args(actual)
         actual = a[0] if a else actual
 
-    if istypealiastype(actual):
-        actual = actual.__value__
+    # Aliases may be chained with each other and with `NewType`s.
+    while istypealiastype(actual) and not isinstance(actual.__value__, str):
+        actual = resolve_supertype(actual.__value__)
 
     actual = tp.get_origin(actual) or actual
 
